@@ -21,7 +21,7 @@ deriving Repr, Inhabited
 def inKey (id : String) : Key := ("n1", "CIn", id)
 def outKey (id : String) : Key := ("n1", "COut", id)
 
-def mapsOutputs (c : Cfg) : Bool := c.kind == "qtransform" || c.kind == "transform"
+def mapsOutputs (c : Cfg) : Bool := c.kind == "qtransform" || c.kind == "transform" || c.kind == "qtransform-ignore"
 
 def destroyName : String := "Destroy[CIn]"
 
@@ -83,7 +83,8 @@ def specViolations (c : Cfg) (s : Store) (ids : List String) : List String :=
         | none => false
       match i with
       | some i =>
-        if i.phase == .running then
+        -- WithIgnoreTeardownUntil(): a tearing-down input counts as running while other parties hold finalizers on it
+        if i.phase == .running || (c.kind == "qtransform-ignore" && i.fins.any (· != c.name)) then
           match o with
           | some o =>
             if held && o.phase == .tearingDown then []
